@@ -95,6 +95,11 @@ class Rat:
     __slots__ = ("n", "d")
 
     def __init__(s, n: Poly, d: Optional[Poly] = None):
+        if d is not None and len(d.t) == 1 and () in d.t and d.t[()] != 1:
+            # constant denominator: fold it into the numerator so that equal values print equally
+            k = d.t[()]
+            n = Poly({m: v / k for m, v in n.t.items()})
+            d = None
         s.n = n
         s.d = d if d is not None else Poly.const(1)
 
